@@ -19,6 +19,14 @@ func main() {
 		os.Exit(runDriveCLI(os.Args[2:]))
 	case "cli-faults": // cli-faults <table-export> <seed> <rounds> <result-json>
 		os.Exit(runCLIFaults(os.Args[2:]))
+	case "format": // format <export-file> <result-json>
+		os.Exit(runFormat(os.Args[2:]))
+	case "text-strings":
+		os.Exit(runTextStrings(os.Args[2:]))
+	case "drive-text":
+		os.Exit(runDriveText(os.Args[2:]))
+	case "text-sweep":
+		os.Exit(runTextSweep(os.Args[2:]))
 	case "serve":
 		os.Exit(runServe(os.Args[2:]))
 	case "cli-worker":
